@@ -172,6 +172,19 @@ Fixpoint walk (cfg_features : N) (s : nstate) (msgs : list cmsg) (results : list
   | _, [] => 4
   | m :: ms, r :: rs =>
       let need_reply := hasb (m_flags m) 8 in
+      if hasb (m_flags m) 4 then
+        (* a message marked as a reply is not a request: never dispatched (C05) *)
+        and_then (negb (accepted r)) 5
+          (let plain := walk cfg_features s ms rs calls sent in
+           if plain =? 0 then 0
+           else match sent with
+                | x :: xs =>
+                    (* a failure acknowledgement for the refused message is tolerated *)
+                    if need_reply && is_response_to m x (Some 8) && negb (ack_value x =? 0)
+                    then walk cfg_features s ms rs calls xs else plain
+                | [] => plain
+                end)
+      else
       match lookup_req req_table (m_code m) with
       | None =>
           (* no such request in the backend server: must be refused, silently *)
@@ -270,6 +283,7 @@ Definition be_spec (args : list val) : val :=
       else if negb c09 then VS "false:C09"
       else if c0407 =? 4 then VS "false:C04"
       else if c0407 =? 7 then VS "false:C07"
+      else if c0407 =? 5 then VS "false:C05"
       else VS "true"
   | [_; _; _; _] => VS "false:C05"     (* a panic or malformed observation *)
   | _ => verror "args"
